@@ -56,6 +56,22 @@ def ar1_model(theta, N, seed):  # noqa: N803
     return x
 
 
+def nan_model(theta, N, seed):  # noqa: N803
+    """like ar1_model, but the series are NaN on part of the parameter space (a model that fails numerically there)"""
+    x = ar1_model(theta, N, seed)
+    if float(theta[0]) > 0.55:
+        x[:] = np.nan
+    return x
+
+
+def mut_model(theta, N, seed):  # noqa: N803
+    """a model that rescales its parameter vector IN PLACE (a legitimate, if careless, user model): the calibrator must be
+    immune to it in the same way whatever the number of jobs"""
+    theta *= 0.5
+    theta += 0.25
+    return ar1_model(theta, N, seed)
+
+
 def make_loss(kind):
     from black_it.loss_functions.fourier import FourierLoss
     from black_it.loss_functions.gsl_div import GslDivLoss
@@ -65,6 +81,9 @@ def make_loss(kind):
 
     return {"minkowski": MinkowskiLoss, "msm": MethodOfMomentsLoss, "fourier": FourierLoss, "gsl": GslDivLoss,
             "likelihood": LikelihoodLoss}[kind]()
+
+
+MODELS = {"ar1_model": ar1_model, "nan_model": nan_model, "mut_model": mut_model}
 
 
 def build(spec, folder=None, ctor_seed_shift=0, n_jobs=1, verbose=False):
@@ -90,7 +109,7 @@ def build(spec, folder=None, ctor_seed_shift=0, n_jobs=1, verbose=False):
     else:
         kw["samplers"] = samplers
     with contextlib.redirect_stdout(io.StringIO()):
-        cal = Calibrator(loss_function=make_loss(spec["loss"]), real_data=real, model=ar1_model,
+        cal = Calibrator(loss_function=make_loss(spec["loss"]), real_data=real, model=MODELS[spec.get("model", "ar1_model")],
                          parameters_bounds=bounds, parameters_precision=prec, ensemble_size=spec["E"],
                          convergence_precision=None, verbose=verbose, saving_folder=folder, random_state=spec["seed"],
                          n_jobs=n_jobs, **kw)
@@ -120,7 +139,7 @@ def run_segments(spec, segments, boundaries, folder=None, **kw):
             ret = cal.calibrate(seg)
             if i < len(boundaries) and boundaries[i] == "restore":
                 cal.create_checkpoint(folder)
-                cal = Calibrator.restore_from_checkpoint(folder, model=ar1_model)
+                cal = Calibrator.restore_from_checkpoint(folder, model=MODELS[spec.get("model", "ar1_model")])
     h = history(cal)
     h["ret"] = (ret[0].tobytes(), ret[1].tobytes()) if ret is not None else None
     th = getattr(cal.scheduler, "_agent_thread", None)
